@@ -84,32 +84,66 @@ impl TextSource for LitTexts {
 fn large_texts() -> Texts {
     Texts { name: "large-inputs".into(), items: crate::alphabet::large_inputs() }
 }
-/// two multi-line literals in one logical line: the first from the C12 shape space, the second fixed
-/// and already laid out as the default configuration wants it
-pub struct TwoLits(pub o3::C12Family);
+/// Two multi-line literals in one logical line. The text is first formatted with the default
+/// configuration (so that the *second* literal sits exactly where the formatter wants it) and then
+/// the first literal is moved to another indentation: only the first one needs re-indenting.
+pub struct TwoLits;
+const TL_TAILS: [&str; 4] = ["", ".Trim", ".B(11 + 11 + 11)", ".Format([aaaaaaaa, bbbbbbbb, cccccccc])"];
+const TL_JOINS: [(&str, &str, &str); 3] = [("x := ", " + ", ";"), ("f(", ", ", ");"), ("x := y + ", " + 'z' + ", ".Trim;")];
+const TL_BASES: [&str; 5] = ["                                        ", "", "\t", "            ", "  "];
+const TL_BODIES: [&str; 3] = ["a", "a\n%b", "\n%a  "];
+impl TwoLits {
+    fn build(idx: u64) -> String {
+        let mut r = idx;
+        let mut pick = |n: usize| {
+            let v = (r % n as u64) as usize;
+            r /= n as u64;
+            v
+        };
+        let tail = TL_TAILS[pick(TL_TAILS.len())];
+        let (head, join, close) = TL_JOINS[pick(TL_JOINS.len())];
+        let base = TL_BASES[pick(TL_BASES.len())];
+        let body = TL_BODIES[pick(TL_BODIES.len())];
+        let level = pick(2);
+        let lit = |ind: &str, body: &str| format!("'''\n{ind}{}\n{ind}'''", body.replace('%', ind));
+        let stmt = format!("{head}{}{tail}{join}{}{close}", lit("  ", body), lit("  ", "m"));
+        let t0 = if level == 0 { format!("begin\n  {stmt}\nend;\n") } else { format!("begin\n  if a then\n  begin\n    {stmt}\n  end;\nend;\n") };
+        let o = cfg::DEFAULT.formatter().format(&t0, pasfmt_core::prelude::FileOptions::new());
+        // move the first literal
+        let toks = crate::refscan::scan(&o);
+        let Some(first) = toks.iter().find(|t| t.kind == crate::refscan::Kind::Text(crate::refscan::TextKind::MultiLine)) else {
+            return o;
+        };
+        let l = o2::ml_lit(first.text(&o));
+        let mut moved = String::new();
+        for (k, (content, term)) in l.lines.iter().enumerate() {
+            if k == 0 {
+                moved.push_str(content);
+            } else {
+                let rest = content.strip_prefix(l.base.as_str()).unwrap_or(content);
+                if !rest.is_empty() || k == l.lines.len() - 1 {
+                    moved.push_str(base);
+                }
+                moved.push_str(rest);
+            }
+            moved.push_str(term);
+        }
+        format!("{}{}{}", &o[..first.start], moved, &o[first.end..])
+    }
+}
 impl TextSource for TwoLits {
     fn name(&self) -> String {
-        format!("two-ml-literals(lines<={})", self.0.max_lines)
+        "two-ml-literals(first-moved,second-in-place)".into()
     }
     fn len(&self) -> u64 {
-        use crate::runner::Family;
-        self.0.len() * 2
+        (TL_TAILS.len() * TL_JOINS.len() * TL_BASES.len() * TL_BODIES.len() * 2) as u64
     }
     fn get(&self, idx: u64, buf: &mut String) {
-        let (text, _) = self.0.build(idx / 2);
-        // position 0 texts look like "begin\n  x := <lit><after>\nend;\n": splice a second literal in
-        let second = "'''\n      m\n      '''";
-        let t = if idx % 2 == 0 {
-            text.replacen("x := ", "x := f(", 1).replacen("\nend;", &format!("\n      , {second}.Trim(aaaaaa, bbbbbb));\nend;"), 1)
-        } else {
-            text.replacen("x := ", "x := ", 1).replacen("\nend;", &format!("\n      + {second}.Format([aaaaaa, bbbbbb]);\nend;"), 1)
-        };
-        // the first statement terminator belongs to the first literal's continuation: drop it
-        *buf = t.replacen(";\n      ,", "\n      ,", 1).replacen(";\n      +", "\n      +", 1);
+        *buf = Self::build(idx);
     }
 }
 fn two_lits() -> TwoLits {
-    TwoLits(o3::C12Family { max_lines: 1, cfgs: vec![cfg::DEFAULT], quotes: vec![3], positions: vec![0] })
+    TwoLits
 }
 fn lit_texts(max_lines: usize) -> LitTexts {
     LitTexts(o3::C12Family { max_lines, cfgs: vec![cfg::DEFAULT], quotes: vec![3, 5], positions: vec![0, 4] })
